@@ -8,7 +8,7 @@
    classes of odl/operator/operator.py and of five leaf classes of default_ops.py
    are REGENERATED from the source into Gen/C03Bodies.v on every run
    (translate/call_bodies.py) and interpreted by C03/Model.v. *)
-From Coq Require Import ZArith QArith Reals List Bool Arith Lia.
+From Coq Require Import ZArith QArith Reals List Bool Arith Lia Lra.
 From Verif Require Import Base.Num Base.Vec C03.Syntax Gen.C03Bodies C03.Poison C03.Model C03.Heap
   C03.Protocol C03.Classes C03.Proofs C03.Corr C03.Refuted.
 Import ListNotations.
@@ -107,7 +107,9 @@ Print Assumptions default_bridges_correct.
 (* T1  THE PROPERTY FOR ALL OPERATOR TREES.  [den ro o dom ran c F] says: o is a tree,
    of any depth, built from the nine expression classes (each with fresh OR
    user-supplied temporaries tmp= / tmp_ran=, listed in c and pairwise distinct), the
-   five translated leaf classes and primitive leaves of any of the three dispatch
+   five translated leaf classes of default_ops.py, ten translated proximal operators
+   (proximal_l1, proximal_l2_squared, proximal_convex_conj_l2_squared with and without g;
+   proximal_box_constraint x 4) and primitive leaves of any of the three dispatch
    kinds (incl. leaves returning their argument itself), well-formed as the __init__
    methods demand, and F is the real function it denotes.  Then for EVERY store, every
    NaN-free x in the domain, every y in the range with ARBITRARY contents (NaN
@@ -192,6 +194,17 @@ Proof.
     + repeat constructor; cbn; intuition lia.
   - apply D_Multiply. left. reflexivity.
   - repeat constructor; cbn; intuition lia.
+Qed.
+Example a_tree_over_proximal_operators :
+  let sp := (3, 0)%nat in
+  exists F, den [] (Op cls_OperatorComp sp (RSp sp) [] [] [None]
+                      [Op cls_ProximalL1 sp (RSp sp) [Some 2%R; Some 1%R] [] [] [];
+                       Op cls_ProxBox_both sp (RSp sp) [Some (-1)%R; Some 1%R] [] [] []]) sp sp [] F.
+Proof.
+  cbv zeta. eexists. apply (D_Comp _ _ _ _ _ _ [] [] None).
+  - apply D_ProxL1. lra.
+  - apply D_BoxBoth.
+  - constructor.
 Qed.
 Example a_functional_tree_with_a_denotation :
   let sp := (2, 0)%nat in
